@@ -315,9 +315,41 @@ def one_ostree(rng, res):
         shutil.rmtree(d, ignore_errors=True)
 
 
+def several_dirs_case(rng, res):
+    """Several dir: artifacts recorded by ONE call (as `in-toto-run -p dir:a dir:b` does): each digest is the documented
+    construction over its own directory, whatever was recorded before it in the same call."""
+    import in_toto.runlib as rl
+    names = rng.sample(["alpha", "beta", "g amma", "d/elta"], rng.randrange(2, 4))
+    trees = {nm: gen_dir_tree(rng) for nm in names}
+    if rng.random() < 0.5:
+        trees[names[-1]] = {"only.txt": ("f", b"only\n")}        # (a later directory lacking the earlier ones' files)
+    d = tempfile.mkdtemp(prefix="verif-c20s-")
+    cwd = os.getcwd()
+    try:
+        for nm, t in trees.items():
+            materialise_shuffled(t, os.path.join(d, nm), rng)
+        os.chdir(d)
+        try:
+            r = rl.record_artifacts_as_dict(["dir:" + nm for nm in names])
+            got = {"ok": sorted([k, v["sha256"]] for k, v in r.items())}
+        except Exception as e:  # pylint: disable=broad-except
+            got = {"err": type(e).__name__}
+    finally:
+        os.chdir(cwd)
+        shutil.rmtree(d, ignore_errors=True)
+    want = {"ok": sorted(["dir:" + nm, documented_digest(t, [])[0]] for nm, t in trees.items())}
+    case = {"op": "several_dirs", "dirs": names, "n_files": [len(documented_digest(t, [])[1]) for t in trees.values()]}
+    res.case(case, True, got == want, sample_cap=1)
+    res.count("several_dirs_in_one_call")
+    if got != want:
+        res.fail("oracle", case, {"why": "dir: digests recorded by one call are not each the documented construction over its own directory",
+                                  "impl": got, "expected": want})
+
+
 def shard(seed, idx, n, tier):
     res = core.Result()
     rng = core.rng_for(seed, "c20", idx)
+    several_dirs_case(rng, res)
     for _ in range(n):
         one_case(rng, res)
     if idx < 3:
